@@ -15,3 +15,19 @@ Theorem monitor_pool_holds_on_model : forall cfg c0 evs,
   p_pool (dump_of (reachable cfg c0 evs)) = "".
 Proof. exact p_pool_reachable. Qed.
 Print Assumptions monitor_pool_holds_on_model.
+
+(* Full statement wanted: forall evs, p_inv lease [] (observation of the
+   reachable state) = "".  It is false of the model for a reason that lies
+   in the monitor, not in the code: Spec.owner_code is not injective, so two
+   clients whose lock-owner names collide under it (client 1 / owner 3072,
+   client 4 / owner 0) and who hold overlapping shared locks make p_locks
+   report C20:table-not-wf on a state without panic whose table is well
+   formed.  (The harness only generates small lock-owner names.) *)
+Theorem monitor_locks_refuted_for_large_owner_names :
+  let st := reachable (mkConfig 4000 2 6) 1000 collide_events in
+  st_panic st = false
+  /\ map (fun p => map (fun k => (LS.lstart k, LS.lend k, LS.lowner k, LS.ltyp k)) (pf_locks p)) (st_pool st)
+     = [[(0, 10, 2, LS.Shared); (0, 10, 1, LS.Shared)]]
+  /\ p_locks [] (dump_of st) = "C20:table-not-wf".
+Proof. exact p_locks_refuted. Qed.
+Print Assumptions monitor_locks_refuted_for_large_owner_names.
